@@ -7,9 +7,9 @@
 // $Source$
 // $Revision$
 
-use fpdec_core::{i128_div_rounded, ten_pow, Round};
+use fpdec_core::{checked_mul_pow_ten, i128_div_rounded, ten_pow, Round};
 
-use crate::Decimal;
+use crate::{Decimal, DecimalError};
 #[cfg(doc)]
 use crate::RoundingMode;
 
@@ -39,7 +39,22 @@ impl Round for Decimal {
         if n_frac_digits >= self.n_frac_digits as i8 {
             self
         } else if n_frac_digits < self.n_frac_digits as i8 - 38 {
-            Self::ZERO
+            // |self| < 10 ^ -n_frac_digits / 2, so the result is either 0 or
+            // +/- 10 ^ -n_frac_digits, depending on sign and rounding mode
+            // only.
+            let unit = i128_div_rounded(self.coeff.signum(), 10, None);
+            if unit == 0 {
+                Self::ZERO
+            } else {
+                match checked_mul_pow_ten(unit, n_frac_digits.unsigned_abs())
+                {
+                    Some(coeff) => Self {
+                        coeff,
+                        n_frac_digits: 0,
+                    },
+                    None => panic!("{}", DecimalError::InternalOverflow),
+                }
+            }
         } else {
             // n_frac_digits < self.n_frac_digits
             let shift: u8 = (self.n_frac_digits as i8 - n_frac_digits) as u8;
@@ -86,7 +101,18 @@ impl Round for Decimal {
         if n_frac_digits >= self.n_frac_digits as i8 {
             Some(self)
         } else if n_frac_digits < self.n_frac_digits as i8 - 38 {
-            Some(Self::ZERO)
+            // see fn round
+            let unit = i128_div_rounded(self.coeff.signum(), 10, None);
+            if unit == 0 {
+                Some(Self::ZERO)
+            } else {
+                checked_mul_pow_ten(unit, n_frac_digits.unsigned_abs()).map(
+                    |coeff| Self {
+                        coeff,
+                        n_frac_digits: 0,
+                    },
+                )
+            }
         } else {
             // n_frac_digits < self.n_frac_digits
             let shift: u8 = (self.n_frac_digits as i8 - n_frac_digits) as u8;
